@@ -18,6 +18,8 @@ from fractions import Fraction
 VERIF = os.path.dirname(os.path.dirname(os.path.abspath(__file__)))
 LEAN = os.path.join(VERIF, 'lean')
 REPO = os.environ.get('COMPMECH_REPO', '/repo')
+if REPO not in sys.path:
+    sys.path.insert(0, REPO)      # the tree under test takes precedence over the develop-installed copy
 SCRATCH = os.path.join(VERIF, '.scratch')
 REPLAYS = os.path.join(VERIF, 'replays')
 EVIDENCE = os.path.join(VERIF, 'evidence')
